@@ -3485,7 +3485,12 @@ class SEVM:
                         account_code: Contract | ByteVec = (
                             ex.code.get(account_alias) or ByteVec()
                         )
-                        codeslice: ByteVec = account_code.slice(offset, size)
+                        # note: Contract.slice takes (start, size), but ByteVec.slice takes (start, stop)
+                        codeslice: ByteVec = (
+                            account_code.slice(offset, size)
+                            if isinstance(account_code, Contract)
+                            else account_code.slice(offset, offset + size)
+                        )
                         state.set_mslice(loc, codeslice)
 
                 elif opcode == OP_EXTCODEHASH:
